@@ -6,6 +6,9 @@
 import TxVerif.Model.Hex
 import TxVerif.Model.Meta
 import TxVerif.Model.EngineDriver
+import TxVerif.Model.Lock
+import TxVerif.Props.C18
+import TxVerif.Model.CodecDriver
 open TxVerif
 
 def choiceStr : Choice → String
@@ -44,7 +47,7 @@ partial def loop (h : IO.FS.Stream) (st : St) : IO St := do
   | [lhs, expected] =>
     match lhs.splitOn " " with
     | cmd :: args =>
-      match evalPure cmd args with
+      match (evalPure cmd args <|> evalCodec cmd args) with
       | some r =>
         if r == expected then loop h { st with checked := st.checked + 1 }
         else do
@@ -57,6 +60,71 @@ partial def loop (h : IO.FS.Stream) (st : St) : IO St := do
   | _ => do
     IO.println s!"BADLINE line={st.line}"
     loop h { st with bad := st.bad + 1 }
+
+def lockOpOf : String → Option LockOp
+  | "sharedLock" => some .sharedLock | "sharedUnlock" => some .sharedUnlock
+  | "reservedLock" => some .reservedLock | "reservedUnlock" => some .reservedUnlock
+  | "pendingLock" => some .pendingLock | "pendingUnlock" => some .pendingUnlock
+  | "exclusiveLock" => some .exclusiveLock | "exclusiveUnlock" => some .exclusiveUnlock
+  | _ => none
+
+def lockStr (l : LockSt) : String := s!"{l.shared} {l.pending} {l.reserved}"
+
+/-- lock mode: replay primitive lock operations on the model of lock.go -/
+partial def lockLoop (h : IO.FS.Stream) (l : LockSt) (line checked mism : Nat) : IO (Nat × Nat) := do
+  let ln ← h.getLine
+  if ln.isEmpty then return (checked, mism)
+  let t := ln.trimAscii.toString
+  if t == "new" then lockLoop h {} (line + 1) checked mism else
+  match t.splitOn " => " with
+  | [lhs, res] =>
+    match lhs.splitOn " " with
+    | ["op", name] =>
+      match lockOpOf name with
+      | some op =>
+        if !op.enabled l then do
+          IO.println s!"MISMATCH line={line + 1} {t}: the model says the operation blocks in state {lockStr l}"
+          lockLoop h (op.apply l) (line + 1) (checked + 1) (mism + 1)
+        else
+          let l' := op.apply l
+          if res == "-" || res == lockStr l' then lockLoop h l' (line + 1) (checked + 1) mism
+          else do
+            IO.println s!"MISMATCH line={line + 1} {t}: model state {lockStr l'}"
+            lockLoop h l' (line + 1) (checked + 1) (mism + 1)
+      | none => lockLoop h l (line + 1) checked (mism + 1)
+    | ["blocked", name] =>
+      match lockOpOf name with
+      | some op =>
+        let b := !op.enabled l
+        if toString b == res then lockLoop h l (line + 1) (checked + 1) mism
+        else do
+          IO.println s!"MISMATCH line={line + 1} {t}: model blocked={b} in state {lockStr l}"
+          lockLoop h l (line + 1) (checked + 1) (mism + 1)
+      | none => lockLoop h l (line + 1) checked (mism + 1)
+    | _ => lockLoop h l (line + 1) checked mism
+  | _ => lockLoop h l (line + 1) checked mism
+
+/-- path mode: replay open/close attempts on the path lock model (C18) -/
+partial def pathLoop (h : IO.FS.Stream) (st : PathSt) (line checked mism : Nat) : IO (Nat × Nat) := do
+  let ln ← h.getLine
+  if ln.isEmpty then return (checked, mism)
+  let t := ln.trimAscii.toString
+  if t == "new" then pathLoop h {} (line + 1) checked mism else
+  match t.splitOn " => " with
+  | [lhs, res] =>
+    let op : Option PathOp := match lhs.splitOn " " with
+      | ["pathop", "openOk"] => some .openOk | ["pathop", "openFail"] => some .openFail
+      | ["pathop", "openInvalid"] => some .openInvalid | ["pathop", "close"] => some .close | _ => none
+    match op with
+    | some op =>
+      let (st', r) := st.step op
+      let rs := match r with | .ok => "ok" | .lockErr => "lockErr" | .initErr => "initErr" | .invalid => "invalid" | .noFile => "noFile"
+      if rs == res then pathLoop h st' (line + 1) (checked + 1) mism
+      else do
+        IO.println s!"MISMATCH line={line + 1} {t}: model {rs}"
+        pathLoop h st' (line + 1) (checked + 1) (mism + 1)
+    | none => pathLoop h st (line + 1) checked (mism + 1)
+  | _ => pathLoop h st (line + 1) checked mism
 
 /-- engine mode: programs are delimited by `program …` / `end` lines -/
 partial def engLoop (h : IO.FS.Stream) (st : EngSt) (prog : String) (checked mism progs : Nat) : IO (Nat × Nat × Nat) := do
@@ -82,6 +150,14 @@ def main (args : List String) : IO UInt32 := do
     let st ← loop stdin {}
     IO.println s!"DONE checked={st.checked} mismatches={st.mismatches} bad={st.bad}"
     return (if st.mismatches == 0 && st.bad == 0 then 0 else 1)
+  | "path" =>
+    let (checked, mism) ← pathLoop stdin {} 0 0 0
+    IO.println s!"DONE checked={checked} mismatches={mism} bad=0"
+    return (if mism == 0 then 0 else 1)
+  | "lock" =>
+    let (checked, mism) ← lockLoop stdin {} 0 0 0
+    IO.println s!"DONE checked={checked} mismatches={mism} bad=0"
+    return (if mism == 0 then 0 else 1)
   | "engine" =>
     let (checked, mism, progs) ← engLoop stdin {} "" 0 0 0
     IO.println s!"DONE checked={checked} mismatches={mism} bad=0 programs={progs}"
